@@ -1,3 +1,208 @@
-CHECKS = {}
+"""Checks decided by decision specifications: TLA+ transcriptions of rule sets over a bounded
+structured input domain.  TLC enumerates the domain completely, checks the ASSUMEd relations
+of the specification and writes the table  input |-> expected verdict  as JSON; the Go
+harness concretises every row (real strings, real keys, real signed JWTs, real HTTP
+requests) and executes it on the real code; every disagreement is a candidate violation.
+"""
+import json, os, random, re, sys, time
+from vlib import *
+
+Q, T = "quick", "thorough"
+
+CHECKS = {
+    "C12": dict(spec="TblScope", consts={Q: {"MaxLen": 3}, T: {"MaxLen": 4}},
+                tables=[("VERIF_TABLE_SCOPE", "c12scope", "scope"), ("VERIF_TABLE_AUD", "c12aud", "aud"), ("VERIF_TABLE_FLOW", "c12flow", "flow")],
+                cap={Q: 20000, T: 10**7}),
+    "C07L": dict(spec="TblLifespan", consts={Q: {}, T: {}}, tables=[("VERIF_TABLE_LIFE", "c07life", "life")], cap={Q: 400, T: 10**7}),
+    "C11": dict(spec="TblRedirect", consts={Q: {"Depth": 1}, T: {"Depth": 2}},
+                tables=[("VERIF_TABLE_REDIRECT", "c11", "redirect")], cap={Q: 20000, T: 10**7}),
+}
+
+
+def gen_tables(c, tier, wd):
+    cfg = "SPECIFICATION Spec\n"
+    consts = c["consts"][tier]
+    if consts:
+        cfg += "CONSTANTS\n" + "".join(f"  {k} = {v}\n" for k, v in consts.items())
+    env = {}
+    files = {}
+    for envname, kind, short in c["tables"]:
+        files[kind] = os.path.join(wd, f"table_{short}.json")
+        env[envname] = files[kind]
+    t0 = time.time()
+    rc, out = tlc(wd, c["spec"], cfg, ["-workers", "1"], env=env, heap="8g", timeout=3000, cfg_name=c["spec"] + "_tbl.cfg")
+    if "No error has been found" not in out:
+        tail = "\n".join(l for l in out.splitlines() if not l.startswith(("Linting", "Semantic", "Parsing")))[-5000:]
+        raise Indeterminate(f"decision specification {c['spec']} did not evaluate cleanly (specification bug):\n{tail}")
+    for k, f in files.items():
+        if not os.path.exists(f):
+            raise Indeterminate(f"table {k} was not written")
+    return files, round(time.time() - t0, 1)
+
+
+def run_table(binary, kind, table_file, wd, shards=NCPU, timeout=3000):
+    def one(i):
+        out = os.path.join(wd, f"rep_{kind}_{i}.json")
+        p = run_harness(binary, "TestTable", {"VERIF_TABLE": table_file, "VERIF_TABLE_KIND": kind, "VERIF_OUT": out, "VERIF_SHARD": f"{i}/{shards}"}, timeout=timeout)
+        if not os.path.exists(out):
+            raise Indeterminate(f"table runner {kind} failed:\n{p.stdout[-2500:]}\n{p.stderr[-2500:]}")
+        return json.load(open(out))
+    with ThreadPoolExecutor(shards) as ex:
+        reps = list(ex.map(one, range(shards)))
+    tot = {"kind": kind, "rows": reps[0]["rows"], "executed": sum(r["executed"] for r in reps), "checks": sum(r["checks"] for r in reps),
+           "mismatches": [m for r in reps for m in r["mismatches"]], "notes": [n for r in reps for n in r["notes"]]}
+    return tot
+
+
+def corrupt_c11(rows, rnd):
+    cand = [r for r in rows if r["allowed"] and r["err"] == "none" and not r["omitted"] and r["mode"] != "form_post"]
+    out = []
+    for r in rnd.sample(cand, min(3, len(cand))):
+        r = dict(r)
+        r["allowed"] = False
+        out.append(r)
+    return out
+
+
+def corrupt_c07(rows, rnd):
+    out = []
+    for r in rnd.sample(rows, min(3, len(rows))):
+        r = dict(r)
+        r["at"] += 1
+        out.append(r)
+    return out
+
+
+CORRUPT = {"c11": corrupt_c11, "c07life": corrupt_c07}
+ATTACHED = {"C07": "C07L"}      # decision tables that are part of a stateful check
+
+
+def selftest_table(binary, kind, table_file, wd, seed):
+    """flip expected verdicts of a few rows: the runner must report exactly those rows"""
+    rows = json.load(open(table_file))
+    rnd = random.Random(seed)
+    idx = rnd.sample(range(len(rows)), min(3, len(rows)))
+    sub = []
+    if kind in CORRUPT:
+        sub = CORRUPT[kind](rows, rnd)
+        idx = []
+    for i in idx:
+        r = dict(rows[i])
+        flipped = False
+        for k, v in r.items():
+            if isinstance(v, bool) and k not in ("undet", "wild_undet"):
+                r[k] = not v
+                flipped = True
+                break
+        if not flipped:
+            for k, v in r.items():
+                if isinstance(v, str) and k in ("exp", "res", "verdict", "expect"):
+                    r[k] = v + "_corrupted"
+                    flipped = True
+                    break
+        if flipped:
+            sub.append(r)
+    if not sub:
+        raise Indeterminate(f"self-test ({kind}): no row could be corrupted")
+    f = os.path.join(wd, f"self_{kind}.json")
+    json.dump(sub, open(f, "w"))
+    rep = run_table(binary, kind, f, wd, shards=1)
+    bad = {json.dumps(json.loads(m["row"]) if isinstance(m["row"], str) else m["row"], sort_keys=True) for m in rep["mismatches"]}
+    for r in sub:
+        if json.dumps(r, sort_keys=True) not in bad:
+            raise Indeterminate(f"self-test FAILED ({kind}): a row with a flipped expected verdict was accepted: {json.dumps(r)[:300]}")
+    log(f"[selftest] {kind}: {len(sub)} rows with flipped expectations were all reported")
+    return len(sub)
+
+
 def check(prop, tier, seed, replay=None):
-    return 2
+    t0 = time.time()
+    c = CHECKS[prop]
+    wd = scratch(f"{prop}_{tier}")
+    binary = build_harness()
+    if replay:
+        rp = json.load(open(replay))
+        f = os.path.join(wd, "replay_table.json")
+        json.dump([rp["row"]], open(f, "w"))
+        rep = run_table(binary, rp["kind"], f, wd, shards=1)
+        bad = [m for m in rep["mismatches"] if not m.get("undetermined")]
+        for m in bad:
+            log(f"VIOLATION-DETAIL {m['field']}: expected {m['exp']} observed {m['obs']}")
+        if bad:
+            print(f"VIOLATION property={prop} replay={replay}")
+            return 1
+        log("replay: no violation")
+        return 0
+
+    nviol, cov = run(prop, prop, tier, seed, binary, wd)
+    write_evidence(prop, tier, seed, "model_checking", cov, time.time() - t0, nviol, ASSUMPTIONS)
+    shutil.rmtree(wd, ignore_errors=True)
+    log(f"[done] {prop} {tier}: violations={nviol} rows={cov['traces_validated_against_impl']}/{cov['states']} wall={time.time()-t0:.1f}s")
+    return 1 if nviol else 0
+
+
+ASSUMPTIONS = [
+    "TLC 1.8 evaluates the decision specification; the ASSUMEs of the specification relate the rules to each other on the whole domain",
+    "the domain is bounded (see spec_constants and the sets in the specification); nothing is claimed outside it",
+    "rendering of structured inputs to strings / requests and decoding of outputs is harness code (self-test: flipped expectations are reported)"]
+
+
+def run(key, prop, tier, seed, binary, wd):
+    """execute the decision tables registered under `key` for property `prop`; returns (violations, coverage)"""
+    c = CHECKS[key]
+    findings = [f for f in load_findings() if f.get("status") == "open" and f["property"] == prop]
+    files, gen_s = gen_tables(c, tier, wd)
+    nviol, total_rows, total_exec, total_checks, ncorrupt = 0, 0, 0, 0, 0
+    samples, undet, replays, known, parts = [], 0, [], set(), []
+    for envname, kind, short in c["tables"]:
+        rows = json.load(open(files[kind]))
+        full = len(rows)
+        cap = c["cap"][tier]
+        tf = files[kind]
+        if full > cap:
+            random.Random(seed).shuffle(rows)
+            rows = rows[:cap]
+            tf = os.path.join(wd, f"table_{short}_sample.json")
+            json.dump(rows, open(tf, "w"))
+        rep = run_table(binary, kind, tf, wd)
+        total_rows += full
+        total_exec += rep["executed"]
+        total_checks += rep["checks"]
+        samples.append({"kind": kind, "row": rows[len(rows) // 2]})
+        groups = {}
+        for m in rep["mismatches"]:
+            if m.get("undetermined"):
+                undet += 1
+                continue
+            groups.setdefault((re.sub(r"_at_age_\d+|_age_\d+", "", m["field"]), str(m["exp"]), str(m["obs"])), []).append(m)
+        for key, lst in sorted(groups.items()):
+            m = lst[0]
+            row = m["row"] if not isinstance(m["row"], str) else json.loads(m["row"])
+            fp = f"{kind}/{key[0]}/{key[1]}/{key[2]}"
+            kf = [f for f in findings if re.fullmatch(f["fingerprint"], fp)]
+            if kf:
+                if kf[0]["id"] not in known:
+                    known.add(kf[0]["id"])
+                    print(f"KNOWN-FINDING: property={prop} {kf[0]['what']}")
+                continue
+            name = hashlib.sha1((fp + json.dumps(row, sort_keys=True)).encode()).hexdigest()[:10]
+            path = write_replay(prop, name, {"property": prop, "kind": kind, "row": row, "field": m["field"], "expected": m["exp"], "observed": m["obs"],
+                                             "fingerprint": fp, "occurrences": len(lst)})
+            log(f"VIOLATION-DETAIL x{len(lst)} [{fp}] row {json.dumps(row)[:500]}")
+            print(f"VIOLATION property={prop} replay={path}")
+            replays.append(path)
+            nviol += 1
+        for n in sorted(set(rep["notes"]))[:10]:
+            log(f"NOTE [{kind}] {n}")
+        ncorrupt += selftest_table(binary, kind, files[kind], wd, seed)
+        parts.append({"kind": kind, "rows_in_spec_table": full, "rows_executed": rep["executed"], "comparisons": rep["checks"],
+                      "mismatching_rows": len(rep["mismatches"]), "complete": full == rep["executed"]})
+        log(f"[table] {kind}: {rep['executed']}/{full} rows executed, {rep['checks']} comparisons, {len(rep['mismatches'])} mismatches")
+    cov = {"evaluations": total_checks, "distinct_nontrivial": total_exec,
+           "rule": "a case is one row of a decision table enumerated completely by TLC from the decision specification (input record + expected verdict), concretised and executed on the real code; all rows are distinct by construction; non-trivial = all (each row is one point of the bounded input domain)",
+           "samples": samples, "states": total_rows, "transitions": total_checks, "traces_validated_against_impl": total_exec,
+           "exhaustive": all(p["complete"] for p in parts), "tables": parts, "undetermined_rows_observed": undet,
+           "spec": c["spec"], "spec_constants": c["consts"][tier], "tlc_table_generation_s": gen_s,
+           "selftest_corruptions_rejected": ncorrupt, "violation_replays": replays, "known_findings_seen": sorted(known)}
+    return nviol, cov
+
